@@ -22,13 +22,13 @@ import (
 
 // SrvState is the runtime state of one server slot.
 type SrvState struct {
-	Name    string
-	Addr    string
-	Port    int
-	Weight  int
-	Maint   bool // state maint
-	Drain   bool // state drain
-	Cookie  string
+	Name   string
+	Addr   string
+	Port   int
+	Weight int
+	Maint  bool // state maint
+	Drain  bool // state drain
+	Cookie string
 	// Disabled as loaded from the configuration ("disabled" keyword)
 }
 
@@ -57,8 +57,8 @@ type HAProxy struct {
 	Legacy24 bool
 
 	// journal of commands (for oracles / evidence)
-	AdminCmds  []string
-	MasterCmds []string
+	AdminCmds     []string
+	MasterCmds    []string
 	CmdsSinceLoad int
 	// DirtySinceLoad: a runtime command was applied after an error reply was
 	// produced (reset_after_exec) or a command failed half way.
